@@ -1,6 +1,9 @@
 import Momo.Proof.HashTableMerge
 import Momo.Proof.HashTableSummary
 import Momo.Proof.ObjMain
+import Momo.Proof.ArrFaultDone
+import Momo.Proof.BTreeFaultMergeTo
+import Momo.Proof.BTreeHistory
 /-!
 # C10 — Bulk operations stay valid on failure; merge/extract never copy or lose items
 
@@ -55,3 +58,227 @@ theorem C10_extract_transfers (sp : Spec) (hf : Nat → Nat) (t : Table) (hI : T
   removePos_spec sp hf t hI gi b j g it hg hj
 
 end Momo.HT
+
+/-!
+## Arrays: positional insert / remove of `momo::Array` under every fault schedule (model `Momo/Model/ArrFault.lean`)
+
+`InsertCrt / InsertVar`, `Insert(index, Item&&)`, `Insert(index, count, const Item&)` (= `Insert(index, const Item&)` for
+count 1), `Insert(index, begin, end)` for forward iterators, `Remove(index, count)`, `Remove(itemFilter)` as written in
+Array.h and ArrayUtility.h (`ArrayShifter`: no `try` anywhere - an exception leaves the array after the statements
+already executed; the `ArrayItemHandler` is destroyed by unwinding).  Notation as in Props/C04.lean.
+In the model the array *is* the list of its constructed items (`Cell = live v | moved`), so "every slot below count holds
+a live (possibly moved-from) element" is carried by the ledger: exactly as many item objects exist as the array has
+cells (`objs = cells.length + k`, no bad destruction), none outside `[0, count)`, none destroyed twice.
+-/
+namespace Momo.ArrF
+open Momo.Arr
+variable {α : Type}
+
+/-- **C10, arrays.** "Operations documented as only basically exception-safe (… positional insert/remove in arrays)
+leave, after an exception, a valid and usable container with no leak: … in arrays the count is consistent and every slot
+holds a live (possibly moved-from) element."  Under EVERY fault schedule, for every index, count, range and every value
+argument (also one that is an element of the same array): a completed call yields exactly the state of the fault-free
+model `Momo.Arr`; a call that throws leaves `Valid`: the representation invariant holds (count within capacity,
+storage consistent), the outstanding blocks are exactly the array's own block (+ `rest`), exactly `count` item objects
+exist (+ `k`), nothing was deallocated or destroyed twice; and the count lies between the old count and the
+intended new count (`Remove` that throws never changes the count). -/
+theorem C10_array_basic_every_fault (cfg : Cfg) (thr : Thr) (rest : List Nat) (k : Nat) (op : FOp α)
+    (x : Sys α) (v : Valid cfg rest k x) (hpre : op.pre cfg x.arr) :
+    Post (stepF cfg thr op) x
+      (fun _ y => y.arr = (pureStep cfg x.arr op).1 ∧ Valid cfg rest k y)
+      (fun y => Valid cfg rest k y ∧ x.arr.cells.length ≤ y.arr.cells.length ∧
+        y.arr.cells.length ≤ x.arr.cells.length + op.maxAdd) :=
+  basic_step cfg thr rest k op x v hpre
+
+/-- **C10, the ledger clauses spelled out** for a state reached by an exception (or by success):
+count ≤ capacity, constructed objects = count (+ the `k` of the environment), blocks = own block (+ `rest`),
+no double destroy / bad deallocation. -/
+theorem C10_array_valid_means (cfg : Cfg) (rest : List Nat) (k : Nat) (y : Sys α) (v : Valid cfg rest k y) :
+    y.arr.cells.length ≤ capacity cfg y.arr ∧ y.objs = y.arr.cells.length + k ∧
+    y.blocks = (if capacity cfg y.arr > cfg.intCap then [y.arr.cap] else []) ++ rest ∧ y.bad = false :=
+  ⟨v.wf.count_le, v.objs, v.frame, v.good⟩
+
+/-- **C10, what a failed shifter call leaves** (`ArrayShifter::InsertNogrow` / `Remove` have no `try`): the cells are
+exactly those after a proper prefix of the loop statements, and as many objects were constructed as items appended. -/
+theorem C10_shifter_stops_after_prefix (cfg : Cfg) (thr : Thr) (ps : List (Prim α)) (x : Sys α) :
+    Post (execPrims cfg thr ps) x
+      (fun _ y => y.arr = { x.arr with cells := runPrims cfg.keeps x.arr.cells ps } ∧ y.blocks = x.blocks ∧
+        y.objs = x.objs + adds ps ∧ y.bad = x.bad)
+      (fun y => ∃ n, n < ps.length ∧ y.arr = { x.arr with cells := runPrims cfg.keeps x.arr.cells (ps.take n) } ∧
+        y.blocks = x.blocks ∧ y.objs = x.objs + adds (ps.take n) ∧ y.bad = x.bad) :=
+  execPrims_spec cfg thr ps x
+
+/-- the programs are the loops of the fault-free model (`Momo.Arr.insertNogrowN / insertNogrowR`) -/
+theorem C10_shifter_programs_are_the_loops (keeps mv : Bool) (a : Cells α) (index count : Nat) (item : Ref α) (rs : List (Ref α)) :
+    runPrims keeps a (progN a.length index count item) = insertNogrowN keeps a index count item ∧
+    runPrims keeps a (progR mv a.length index rs) = insertNogrowR keeps mv a index rs :=
+  ⟨runPrims_progN keeps a index count item, runPrims_progR keeps mv a index rs⟩
+
+/-! Non-vacuity: a string-like item type (destructive moves) with throwing assignment; `Insert(1, 2, array[3])` takes the
+aliasing path (item handler), room for two more items. -/
+def exCfgB : Cfg := {}
+def exThrB : Thr := { copy := true, move := false, assign := true }
+def exSysB (faults : List Bool) : Sys Nat :=
+  { arr := { cells := [.live 10, .live 11, .live 12, .live 13], cap := 8 }, faults := faults, blocks := [8], objs := 4 }
+def outcomeB {β : Type} (r : Res β × Sys Nat) : Bool × Cells Nat × List Nat × Nat × Bool :=
+  (match r.1 with | .ok _ => true | .threw => false, r.2.arr.cells, r.2.blocks, r.2.objs, r.2.bad)
+
+example : Valid exCfgB [] 0 (exSysB []) := by
+  refine ⟨⟨by decide, ?_, ?_, ?_⟩, by unfold Frame; decide, by decide, rfl⟩ <;> simp [exSysB, exCfgB]
+/-- the first copy assignment of the filling loop throws (after the handler copy and one move assignment): two items
+    appended, two items moved-from, handler destroyed -/
+example : outcomeB ((stepF exCfgB exThrB (.insertN 1 2 (.elem 3))).run (exSysB [false, false, true]))
+    = (false, [.live 10, .moved, .moved, .live 11, .live 12, .live 13], [8], 6, false) := by decide
+/-- no fault: two copies of the old `array[3]` at index 1 -/
+example : outcomeB ((stepF exCfgB exThrB (.insertN 1 2 (.elem 3))).run (exSysB []))
+    = (true, [.live 10, .live 13, .live 13, .live 11, .live 12, .live 13], [8], 6, false) := by decide
+/-- `Remove(0, 2)`: the second assignment throws; count unchanged, one item moved-from -/
+example : outcomeB ((stepF exCfgB exThrB (.remove 0 2)).run (exSysB [false, true]))
+    = (false, [.live 12, .live 11, .moved, .live 13], [8], 4, false) := by decide
+
+end Momo.ArrF
+
+/-! # B-tree family (`momo::TreeSet` / `momo::TreeMap`): bulk operations and transfers under every fault schedule
+
+Model: `Momo/Model/BTreeFault.lean` (see Props/C04.lean). `Insert(begin, end)`, `Remove(filter)`, `MergeTo` (dispatch, swap into
+an empty destination, `pvMergeFast` with its roll-back, `pvMergeTo`, `pvMergeToLinear`), extraction and node re-insertion,
+for EVERY fault schedule, configuration, item category (outside the documented exception 5), well-formed sorted containers.
+`Frame` / `Frame2`: the ledger moved exactly by the change of what the container(s) own — no leak, no double release.
+`SortedBy lt false l` is strict (`lt a b` for every earlier `a` and later `b`): no duplicate keys. -/
+namespace Momo.BTreeF
+open Momo.BTree Momo.BTree.Node
+variable {α : Type}
+
+/-- **Insert(begin, end)** (basic guarantee). Under any fault schedule — a throwing comparison of the "right behind the
+previous element" test or of a search, a refused allocation, a throwing element copy — the container is exactly what the
+fault-free `Insert` of a prefix of the range produces (all of it when nothing was thrown), node for node. Hence: it is
+well-formed and sorted (unique keys stay unique), it kept every element it had, every element is an old one or one of the
+range, and the ledger moved exactly with what the container owns. -/
+theorem C10_tree_insertRange_basic (S : Sched) (ic : ICfg α) (cfg : Cfg) (hmax : 0 < cfg.maxCap) (lt : α → α → Bool)
+    (ho : Order lt) (ft : FTree α) (hw : ft.WF cfg) (hs : SortedBy lt cfg.multi ft.tree.toList) (xs : List α) (w : W)
+    {t : Bool} {ft' : FTree α} {w' : W} (h : insertRangeF S ic cfg lt ft xs w = (t, ft', w')) :
+    ∃ j, j ≤ xs.length ∧ (t = false → j = xs.length) ∧
+      ft'.tree = Tree.insertRange lt cfg ft.tree (xs.take j) ∧
+      ft'.tree.toList = (xs.take j).foldl (Spec.insert1 lt cfg.multi) ft.tree.toList ∧
+      ft'.WF cfg ∧ SortedBy lt cfg.multi ft'.tree.toList ∧
+      ft.tree.toList.Sublist ft'.tree.toList ∧ (∀ z ∈ ft'.tree.toList, z ∈ ft.tree.toList ∨ z ∈ xs) ∧
+      Frame w ft w' ft' := by
+  obtain ⟨j, j1, j2, j3, j4, j5⟩ := insertRangeF_spec lt S ic cfg hmax ho ft hw hs xs w h
+  obtain ⟨a, _, c⟩ := tree_insertRange_spec lt ho cfg hmax ft.tree hw.tree hs (xs.take j)
+  obtain ⟨f1, f2⟩ := foldl_insert1_facts lt cfg.multi (xs.take j) ft.tree.toList
+  refine ⟨j, j1, j3, j2, by rw [j2]; exact a, j4, by rw [j2]; exact c, by rw [j2, a]; exact f1, fun z hz => ?_, j5⟩
+  rw [j2, a] at hz
+  rcases f2 z hz with h' | h'
+  · exact Or.inl h'
+  · exact Or.inr (List.mem_of_mem_take h')
+
+/-- **Remove(filter)** (basic guarantee). Under any fault schedule — a throwing filter, a throwing assignment of `Replace`
+when an internal item is removed, element copies refused inside `pvRebalance` (swallowed) — the container is well-formed and
+sorted, its elements are a sub-sequence of the old ones, every element that does not satisfy the filter is still there, the
+ledger moved exactly with what the container owns; when nothing was thrown exactly the elements satisfying the filter are gone. -/
+theorem C10_tree_removeIf_basic (S : Sched) (ic : ICfg α) (hu : ic.unsafeRepl = false) (cfg : Cfg) (lt : α → α → Bool)
+    (f : α → Bool) (ft : FTree α) (hw : ft.WF cfg) (hs : SortedBy lt cfg.multi ft.tree.toList) (w : W)
+    {t : Bool} {ft' : FTree α} {w' : W} (h : removeIfF S ic cfg f ft w = (t, ft', w')) :
+    ft'.WF cfg ∧ SortedBy lt cfg.multi ft'.tree.toList ∧ Frame w ft w' ft' ∧
+    ft'.tree.toList.Sublist ft.tree.toList ∧ (ft.tree.toList.filter (fun y => !f y)).Sublist ft'.tree.toList ∧
+    (t = false → ft'.tree.toList = ft.tree.toList.filter (fun y => !f y)) := by
+  obtain ⟨a, b, c, d, e⟩ := removeIfF_spec S ic hu cfg f ft hw w h
+  exact ⟨a, sortedBy_sublist lt cfg.multi c hs, b, c, d, e⟩
+
+/-- **MergeTo(TreeSet&)** by whatever path it takes (generic `pvMergeTo` for a non-empty traits class; nothing for an empty
+source; swap into an empty destination; `pvMergeFast` on either side with its wrappers rolled back on failure; `pvMergeTo` /
+`pvMergeToLinear` by the size rule). At every stopping point — after success and after a failure at any comparison,
+allocation, element copy or assignment —: both containers are well-formed and sorted (no duplicate keys in a unique-key
+destination), **source + destination hold exactly the elements they held before** (a permutation: nothing duplicated,
+nothing lost; between calls the node handle of the extraction is empty), the source only lost elements, the destination
+only gained elements — so an element the destination refused, or whose transfer failed, is still in the source —, and the
+ledger moved exactly with what the two containers own. When nothing was thrown the destination is the reference merge
+(`Spec.merge`, resp. one stable insertion after the other for a non-empty traits class). -/
+theorem C10_tree_merge_conserves (S : Sched) (ic : ICfg α) (hu : ic.unsafeRepl = false) (cfg : Cfg) (hmax : 0 < cfg.maxCap)
+    (lt : α → α → Bool) (ho : Order lt) (src dst : FTree α) (hws : src.WF cfg) (hwd : dst.WF cfg)
+    (hss : SortedBy lt cfg.multi src.tree.toList) (hsd : SortedBy lt cfg.multi dst.tree.toList) (w : W)
+    {t : Bool} {src' dst' : FTree α} {w' : W} (h : mergeToF S ic cfg lt src dst w = (t, src', dst', w')) :
+    src'.WF cfg ∧ dst'.WF cfg ∧ SortedBy lt cfg.multi src'.tree.toList ∧ SortedBy lt cfg.multi dst'.tree.toList ∧
+    (src'.tree.toList ++ dst'.tree.toList).Perm (src.tree.toList ++ dst.tree.toList) ∧
+    src'.tree.toList.Sublist src.tree.toList ∧ dst.tree.toList.Sublist dst'.tree.toList ∧
+    Frame2 w src dst w' src' dst' ∧
+    (t = false → dst'.tree.toList =
+      (if ic.statefulTraits then src.tree.toList.foldl (Spec.insert1 lt cfg.multi) dst.tree.toList
+       else Spec.merge lt cfg.multi src.tree.toList dst.tree.toList)) := by
+  obtain ⟨a, b⟩ := mergeToF_spec lt S ic hu cfg hmax ho src dst ⟨hws, hwd, hss, hsd⟩ w h
+  exact ⟨a.inv.ws, a.inv.wd, a.inv.ss, a.inv.sd, a.perm, a.subS, a.subD, a.frame, b⟩
+
+/-- **Extraction transfers, never copies or loses.** `Extract(iter)` / `Remove(iter, extItem)` that returns: the element the
+iterator named together with what remains is what was there, and the ledger's item count is unchanged (the element lives
+on in the handle — for items that are not nothrow relocatable it was copied and the source destroyed, one for one). An
+extraction that throws leaves container and ledger as they were (and the handle empty). -/
+theorem C10_tree_extract_transfers (S : Sched) (ic : ICfg α) (hu : ic.unsafeRepl = false) (cfg : Cfg) (ft : FTree α)
+    (hw : ft.WF cfg) (pos : Pos) (hv : ft.tree.ValidElem pos) (x : α) (hx : ft.tree.elemAt? pos = some x) (w : W)
+    {t : Bool} {ft' : FTree α} {p : Pos} {w' : W} (h : removeF S ic cfg .extract ft pos w = (t, ft', p, w')) :
+    (t = true → ft' = ft ∧ w'.led = w.led) ∧
+    (t = false → (x :: ft'.tree.toList).Perm ft.tree.toList ∧ ft'.WF cfg ∧ w'.led = w.led + (ft'.nodeLed - ft.nodeLed)) := by
+  obtain ⟨a1, a2, _⟩ := removeF_spec S ic cfg .extract ft hw pos hv w h
+  refine ⟨fun ht => ⟨(a1 ht).2 hu, (a1 ht).1⟩, fun ht => ?_⟩
+  obtain ⟨b1, b2, _, _, b5⟩ := a2 ht
+  obtain ⟨y, hy1, hy2⟩ := tree_elemAt_spec cfg ft.tree hw.tree pos hv
+  rw [hx] at hy1; cases hy1
+  refine ⟨by rw [b1]; exact perm_cons_eraseIdx _ _ x hy2, b2, ?_⟩
+  rw [b5]; apply Ledger.ext' <;> simp [itemsDelta]
+
+/-- **Node re-insertion.** `Insert(ExtractedItem&&)`: when the call throws or the destination refuses the element (its key is
+present), the tree is the old tree — the element is still in the handle, which the creator never touched —; when the
+element is accepted the tree is that of the fault-free insertion and the ledger's item count is unchanged (the element
+moved, it was not copied). -/
+theorem C10_tree_reinsert_refused_stays (S : Sched) (ic : ICfg α) (cfg : Cfg) (hmax : 0 < cfg.maxCap) (lt : α → α → Bool)
+    (ho : Order lt) (ft : FTree α) (hw : ft.WF cfg) (hs : SortedBy lt cfg.multi ft.tree.toList) (x : α) (w : W)
+    {t : Bool} {s : Unit} {ft' : FTree α} {p : Pos} {ins : Bool} {w' : W}
+    (h : insertF S ic cfg lt ft x (handleCreator S ic) () w = (t, s, ft', p, ins, w')) :
+    ((t = true ∨ ins = false) → ft'.tree = ft.tree) ∧
+    (t = false → ins = true → ft'.tree = (Tree.insert lt cfg ft.tree x).1 ∧
+        w'.led = w.led + (ft'.nodeLed - ft.nodeLed)) ∧ ft'.WF cfg := by
+  obtain ⟨a1, a2, a3⟩ := insertF_spec S ic cfg hmax lt ho ft hw hs x (handleCreator S ic) () _ (handleCreator_spec S ic) w h
+  refine ⟨fun hh => ?_, fun ht hi => ?_, a3⟩
+  · cases t with
+    | true => exact (a1 rfl).1
+    | false =>
+      rcases hh with hh | hh
+      · cases hh
+      · obtain ⟨_, _, _, b4, _⟩ := a2 rfl
+        rw [(b4 hh).2.1]
+  · obtain ⟨b1, _, _, _, b5⟩ := a2 ht
+    refine ⟨b1, ?_⟩
+    rw [b5 hi]; apply Ledger.ext' <;> simp
+
+/-! Non-vacuity: two sorted capacity-2 trees with interleaved keys and one common key; the merge interrupted at the third
+transfer by an allocation failure, by a comparison, and uninterrupted. -/
+def x10Lt (a b : Nat × Nat) : Bool := a.1 < b.1
+def x10Cfg : Cfg := { maxCap := 2, step := 1, blockGt1 := false, linear := false, multi := false }
+def x10Ic : ICfg (Nat × Nat) := { reloc := true, assign := true }
+def x10Src : FTree (Nat × Nat) :=
+  { tree := { root := some (inner [(5, 1)] [leaf 2 [(1, 1), (3, 1)], leaf 2 [(7, 1), (9, 1)]]), count := 5 }, params := true }
+def x10Dst : FTree (Nat × Nat) :=
+  { tree := { root := some (inner [(6, 2)] [leaf 2 [(2, 2), (4, 2)], leaf 2 [(7, 2), (8, 2)]]), count := 5 }, params := true }
+def x10W : W := { led := { leaves := 4, inners := 2, items := 10, params := 2 } }
+def x10Fail (kind : Nat) (k : Nat) : Sched :=
+  { cmp := fun i => kind == 0 && i == k, alloc := fun i => kind == 1 && i == k, ctor := fun i => kind == 2 && i == k,
+    repl := fun i => kind == 3 && i == k, filt := fun _ => false }
+def x10Out (r : Bool × FTree (Nat × Nat) × FTree (Nat × Nat) × W) : Bool × List (Nat × Nat) × List (Nat × Nat) × Ledger :=
+  (r.1, r.2.1.tree.toList, r.2.2.1.tree.toList, r.2.2.2.led)
+
+/-- no fault: 7:1 is refused (key present) and stays in the source -/
+example : x10Out (mergeToF Sched.clean x10Ic x10Cfg x10Lt x10Src x10Dst x10W) =
+    (false, [(7, 1)], [(1, 1), (2, 2), (3, 1), (4, 2), (5, 1), (6, 2), (7, 2), (8, 2), (9, 1)],
+     { leaves := 6, inners := 3, items := 10, params := 2 }) := by decide +kernel
+/-- the first node allocation of the merge is refused (the transfer of 1:1 needs a leaf split): 1:1 is still in the source -/
+example : x10Out (mergeToF (x10Fail 1 0) x10Ic x10Cfg x10Lt x10Src x10Dst x10W) =
+    (true, [(1, 1), (3, 1), (5, 1), (7, 1), (9, 1)], [(2, 2), (4, 2), (6, 2), (7, 2), (8, 2)], x10W.led) := by decide +kernel
+/-- a comparison throws later: the two elements transferred so far are in the destination, the rest still in the source -/
+example : x10Out (mergeToF (x10Fail 0 9) x10Ic x10Cfg x10Lt x10Src x10Dst x10W) =
+    (true, [(5, 1), (7, 1), (9, 1)], [(1, 1), (2, 2), (3, 1), (4, 2), (6, 2), (7, 2), (8, 2)],
+     { leaves := 5, inners := 2, items := 10, params := 2 }) := by decide +kernel
+/-- `Insert(range)` interrupted by the copy of the third element: exactly the first two went in -/
+example : (insertRangeF (x10Fail 2 2) x10Ic x10Cfg x10Lt x10Dst [(1, 3), (3, 3), (5, 3), (9, 3)] x10W).1 = true ∧
+    (insertRangeF (x10Fail 2 2) x10Ic x10Cfg x10Lt x10Dst [(1, 3), (3, 3), (5, 3), (9, 3)] x10W).2.1.tree.toList =
+      [(1, 3), (2, 2), (3, 3), (4, 2), (6, 2), (7, 2), (8, 2)] := by decide +kernel
+
+end Momo.BTreeF
